@@ -1,5 +1,6 @@
 import SciVerif.Tie.Task
 import SciVerif.Props.C07
+import SciVerif.Tie.Pins
 /-! Tie A obligations for C07 on the current source. -/
 namespace SciVerif.Tie
 open SciVerif.Slots
@@ -16,7 +17,21 @@ theorem c07_on_source (max : Nat) (cores : List Nat) (hc : âˆ€ c âˆˆ cores, c â‰
     âˆƒ i s', step slotSem s i = some s' :=
   c07_no_deadlock slotSem generated_slot_locked max cores hc sched s h hnd
 
+
+-- BEGIN PINS (written by bin/mkpins; do not edit by hand)
+/-- the Go functions this property's model and obligations were written against have exactly the
+pinned skeletons (SHA-256 prefix of the atom list) -/
+theorem pinned_skeletons_c07 :
+    pinsOk
+    [("Scipipe.Process_Run", "05880ea16e590fb1"),
+     ("Scipipe.Task_Execute", "40fd1fec0c69deb2"),
+     ("Scipipe.Workflow_DecConcurrentTasks", "2862c41bbe9893c5"),
+     ("Scipipe.Workflow_IncConcurrentTasks", "acd0e561d4db6cb8"),
+     ("Scipipe.newWorkflowWithoutLogging", "6bb5eb2ae17350a8")] = true := by decide
+-- END PINS
+
 end SciVerif.Tie
+#print axioms SciVerif.Tie.pinned_skeletons_c07
 #print axioms SciVerif.Tie.generated_slot_locked
 #print axioms SciVerif.Tie.generated_slot_counts_c07
 #print axioms SciVerif.Tie.generated_cores_check_first
